@@ -155,13 +155,12 @@ func Corpus(thorough bool) []Unit {
 	}
 	kinds := corpusKinds()
 	shapes := corpusShapes()
-	widths := []int32{1}
-	if thorough {
-		widths = []int32{1, 16, 2048, 262144, 33554432}
-	}
 	// 1. single-field messages: kind x shape x tag width, grouped per (shape, width)
-	for _, w := range widths {
-		for _, sh := range shapes {
+	for _, w := range []int32{1, 16, 2048, 262144, 33554432} {
+		for si, sh := range shapes {
+			if !thorough && w != 1 && si > 3 {
+				continue // quick: the wider tags for singular / repeated / unpacked / sole oneof member only
+			}
 			var mbs []msgBuilder
 			for _, k := range kinds {
 				k, sh, w := k, sh, w
